@@ -8,6 +8,7 @@
    the reference semantics (tools/fv/props/c01.py); that part is a search, not a theorem.
    Only statements here, each closed by an earlier lemma. *)
 From FV Require Import Base.Prelude Cpp.IR Cpp.Exec Model.FragTranslate Proofs.FragProofs.
+From Coq Require QArith.
 
 Theorem C01_fragment_rows :
   forall (bk : FragTranslate.backend) (e : ex) (n0 : nat) (ev : event) (ms : frame) (old : value),
@@ -77,4 +78,44 @@ Proof. vm_compute. split; reflexivity. Qed.
 Example C01_nonvacuous_fault :
   de {| ev_colls := []; ev_meths := [] |} q0 = RFault FRetrieve /\
   run_event (prog atlas q0 1) [("_col17", ("int", VUninit))] {| ev_colls := []; ev_meths := [] |} = RFault FRetrieve.
+Proof. vm_compute. split; reflexivity. Qed.
+
+(* ---------- rows: several columns, vector columns, Sum ---------- *)
+(* For every row of the fragment (any number of columns; each an event-level expression over Count()/Sum() of
+   filtered collections, or a vector column coll[.Where(p)].Select(body)), every first index, every event and
+   every member state in which the column members are declared and the vector members are empty: the job
+   writes exactly ONE row holding, column by column, the value the query denotes (a vector column holds the
+   body's values on the passing elements, in order) - or fails exactly when the query is undefined - and leaves
+   every vector member empty again (so the next event starts from the same kind of state). *)
+Theorem C01_fragment_row :
+  forall (bk : backend) (r : row) (n0 : nat) (ev : event) (ms : frame),
+  let nf := n0 + row_size r in
+  row_bases_ok r = true -> NoDup (rmems r nf 0) -> members_init r nf 0 ms ->
+  match drow ev r with
+  | ROk vs => exists ms', run_event (prog_row bk r n0) ms ev = ROk ([vs], ms') /\ members_final r nf 0 ms' vs
+  | RFault f => run_event (prog_row bk r n0) ms ev = RFault f
+  | RStuck _ => True
+  end.
+Proof. exact frag_row_correct. Qed.
+Print Assumptions C01_fragment_row.
+
+Definition r0 : row :=
+  [("pts", ColVec jets [{| p_op := ">"; p_l := PMeth "pt"; p_r := PInt 30 |}] (PBin "*" (PMeth "pt") (PInt 2)));
+   ("n", ColScalar q0);
+   ("s", ColScalar (ECount {| k_coll := trks; k_preds := []; k_agg := ASum (PMeth "pt") |}))].
+Definition ev1 : event :=
+  {| ev_colls := ev_colls ev0;
+     ev_meths := ev_meths ev0 ++ [((3, "pt"), VDbl (QArith_base.inject_Z 5)); ((4, "pt"), VDbl (QArith_base.inject_Z 7))] |}.
+Definition ms0 : frame :=
+  [("_pts12", ("std::vector<double>", VVec [])); ("_n13", ("int", VUninit)); ("_s14", ("double", VUninit))].
+Example C01_row_nonvacuous_denotes :
+  drow ev1 r0 = ROk [VVec [VDbl (QArith_base.inject_Z 62); VDbl (QArith_base.inject_Z 90)]; VInt 6; VDbl (QArith_base.inject_Z 12)].
+Proof. vm_compute. reflexivity. Qed.
+Example C01_row_nonvacuous_runs :
+  run_event (prog_row atlas r0 1) ms0 ev1 =
+  ROk ([[VVec [VDbl (QArith_base.inject_Z 62); VDbl (QArith_base.inject_Z 90)]; VInt 6; VDbl (QArith_base.inject_Z 12)]],
+       [("_pts12", ("std::vector<double>", VVec [])); ("_n13", ("int", VInt 6)); ("_s14", ("double", VDbl (QArith_base.inject_Z 12)))]).
+Proof. vm_compute. reflexivity. Qed.
+Example C01_row_nonvacuous_premises :
+  row_bases_ok r0 = true /\ rmems r0 (1 + row_size r0) 0 = ["_pts12"; "_n13"; "_s14"].
 Proof. vm_compute. split; reflexivity. Qed.
